@@ -249,10 +249,8 @@ func (c *compiler) evalFunctionLiteral(node *ast.FunctionLiteral) (interface{}, 
 
 func (c *compiler) evalPrefixExpression(node *ast.PrefixExpression) (interface{}, error) {
 	res, err := c.evalExpression(node.Right)
-	if err != nil {
-		if _, ok := err.(*ErrUnknownIdentifier); !ok {
-			return nil, err
-		}
+	if err != nil && !isUnknownName(node.Right, err) {
+		return nil, err
 	}
 
 	switch node.Operator {
@@ -265,10 +263,8 @@ func (c *compiler) evalPrefixExpression(node *ast.PrefixExpression) (interface{}
 
 func (c *compiler) evalIfExpression(node *ast.IfExpression) (interface{}, error) {
 	con, err := c.evalExpression(node.Condition)
-	if err != nil {
-		if _, ok := err.(*ErrUnknownIdentifier); !ok {
-			return nil, err
-		}
+	if err != nil && !isUnknownName(node.Condition, err) {
+		return nil, err
 	}
 
 	if c.isTruthy(con) {
@@ -282,10 +278,8 @@ func (c *compiler) evalElseAndElseIfExpressions(node *ast.IfExpression) (interfa
 	var r interface{}
 	for _, eiNode := range node.ElseIf {
 		eiCon, err := c.evalExpression(eiNode.Condition)
-		if err != nil {
-			if _, ok := err.(*ErrUnknownIdentifier); !ok {
-				return nil, err
-			}
+		if err != nil && !isUnknownName(eiNode.Condition, err) {
+			return nil, err
 		}
 
 		if c.isTruthy(eiCon) {
@@ -572,7 +566,7 @@ func (c *compiler) evalIdentifier(node *ast.Identifier) (interface{}, error) {
 
 func (c *compiler) evalInfixExpression(node *ast.InfixExpression) (interface{}, error) {
 	lres, err := c.evalExpression(node.Left)
-	if err != nil && !toleratedOperandError(node.Operator, err) {
+	if err != nil && !toleratedOperandError(node.Operator, node.Left, err) {
 		return nil, err
 	} // nil lres is acceptable only for '==', '!=', and logical operators
 
@@ -584,7 +578,7 @@ func (c *compiler) evalInfixExpression(node *ast.InfixExpression) (interface{}, 
 	}
 
 	rres, err := c.evalExpression(node.Right)
-	if err != nil && !toleratedOperandError(node.Operator, err) {
+	if err != nil && !toleratedOperandError(node.Operator, node.Right, err) {
 		return nil, err
 	} // nil rres is acceptable only for '==', '!=', and logical operators
 
@@ -625,13 +619,23 @@ func (c *compiler) evalInfixExpression(node *ast.InfixExpression) (interface{}, 
 
 // toleratedOperandError reports whether an operand error may be treated as a
 // nil operand: only an unknown identifier, and only for '==', '!=', '&&', '||'.
-func toleratedOperandError(op string, err error) bool {
+func toleratedOperandError(op string, operand ast.Expression, err error) bool {
 	switch op {
 	case "==", "!=", "||", "&&":
-		_, ok := err.(*ErrUnknownIdentifier)
-		return ok
+		return isUnknownName(operand, err)
 	}
 	return false
+}
+
+// isUnknownName reports whether err says that exp, a name, is not known. An
+// unknown identifier somewhere inside a larger expression - an argument of a
+// call, the body of a called function - is a failure of that expression.
+func isUnknownName(exp ast.Expression, err error) bool {
+	if _, ok := exp.(*ast.Identifier); !ok {
+		return false
+	}
+	_, ok := err.(*ErrUnknownIdentifier)
+	return ok
 }
 
 func (c *compiler) arrayOperator(l interface{}, r interface{}, op string) (interface{}, error) {
